@@ -100,10 +100,10 @@ func readerMachine(p *Prog, lines []string) *Machine {
 				n++
 			}
 		}
-		st.Effects = append(st.Effects, "read")
 		if n >= len(lines) {
-			return "", false
+			return "", false // (reads past the end leave no trace: a loop that keeps reading there changes nothing)
 		}
+		st.Effects = append(st.Effects, "read")
 		return lines[n], true
 	})
 	m.PeekRest = func(st *State) string {
